@@ -89,6 +89,30 @@ fn main() {
                 println!("{:6}x {}  first idx={} seed={}  :: {}", f.count, k, f.first_idx, f.first_seed, f.example.as_ref().unwrap().msg);
             }
         }
+        Some("stress") => {
+            // run one seed many times concurrently; all digests must agree
+            let fam = Family::parse(&args[2]).expect("family");
+            let seed: u64 = args[3].parse().expect("seed");
+            let reps: usize = args.get(4).and_then(|s| s.parse().ok()).unwrap_or(2000);
+            let mut hs = Vec::new();
+            for _ in 0..threads {
+                hs.push(std::thread::spawn(move || {
+                    let mut v = Vec::new();
+                    for _ in 0..reps / 16 {
+                        let r = run_one(fam, Mode::Search(seed));
+                        v.push((r.digest, r.choices.len(), dst::oracle::check_all(&r).len()));
+                    }
+                    v
+                }));
+            }
+            let mut all = std::collections::BTreeMap::new();
+            for h in hs {
+                for d in h.join().unwrap() {
+                    *all.entry(d).or_insert(0u32) += 1;
+                }
+            }
+            println!("{all:?}");
+        }
         Some("determinism") => {
             // run each seed of each family twice (fresh threads, different batch positions) and compare digests
             let n: u64 = args.get(2).and_then(|s| s.parse().ok()).unwrap_or(2000);
